@@ -339,3 +339,62 @@ Proof.
 Qed.
 Lemma tol_lo_nonneg : 0 <= 1 - tol. Proof. unfold Qcle. vm_compute. discriminate. Qed.
 Lemma tol_hi_nonneg : 0 <= 1 + tol. Proof. unfold Qcle. vm_compute. discriminate. Qed.
+
+(* ---- non-finite entries ------------------------------------------------------------------------------- *)
+Lemma otraverse_id_nth (l : list (option Qc)) l' :
+  otraverse (fun x => x) l = Some l' -> forall k, (k < length l)%nat -> nth k l None <> None.
+Proof.
+  revert l'. induction l as [|x l IH]; intros l' H k Hk; [simpl in Hk; lia|].
+  simpl in H. destruct x as [q|]; [|discriminate].
+  destruct (otraverse (fun x => x) l) as [r|] eqn:E; [|discriminate].
+  destruct k as [|k]; simpl; [discriminate|]. apply (IH r eq_refl). simpl in Hk. lia.
+Qed.
+
+Lemma valid_ocpd_finite (oc : ocpd) :
+  is_valid_ocpd oc = true ->
+  exists c : cpd, ocpd_finite oc = Some c /\ is_valid_cpd c = true /\
+                  forall k, (k < length (vals oc))%nat -> nth k (vals oc) None <> None.
+Proof.
+  unfold is_valid_ocpd. destruct (ocpd_finite oc) as [c|] eqn:E; [|discriminate].
+  intros H. exists c. split; [reflexivity|]. split; [exact H|].
+  unfold ocpd_finite in E. destruct (otraverse (fun x => x) (vals oc)) as [l|] eqn:E2; [|discriminate].
+  apply (otraverse_id_nth _ l E2).
+Qed.
+
+(* normalize() of a table with a zero-sum column is never valid (0/0 = nan, x/0 = +-inf) *)
+Lemma normalized_zero_column_invalid (c : cpd) j :
+  wf_cpd c -> (j < prod (pcards c))%nat -> colsum c j = Q2Qc 0 -> is_valid_ocpd (normalize c) = false.
+Proof.
+  intros W Hj Hs. destruct (is_valid_ocpd (normalize c)) eqn:E; [|reflexivity]. exfalso.
+  destruct (valid_ocpd_finite _ E) as [c' [_ [_ Hfin]]].
+  pose proof (wf_vals c W) as Hv. unfold cardinality in Hv. rewrite prod_cons in Hv.
+  pose proof (wf_pos c W) as Hp.
+  destruct (normalize_columns c j Hv Hj) as [_ Hz].
+  apply (Hfin (0 * prod (pcards c) + j)%nat).
+  - rewrite normalize_length by exact Hv. simpl. nia.
+  - apply Hz; [exact Hs|exact Hp].
+Qed.
+
+Lemma check_model_nf_sound b nf :
+  check_model_nf b nf = CM_ok ->
+  check_model b = CM_ok /\
+  forall v c, In v (nodes (bg b)) -> get_cpd b v = Some c -> ~ In (child c) nf.
+Proof.
+  unfold check_model_nf, check_model. intros H.
+  destruct (first_fail (check_node1_nf b nf) (nodes (bg b))) eqn:E1; try discriminate.
+  rewrite first_fail_ok in E1.
+  assert (G : forall v, In v (nodes (bg b)) -> check_node1 b v = CM_ok /\
+                        forall c, get_cpd b v = Some c -> ~ In (child c) nf).
+  { intros v Hv. specialize (E1 v Hv). unfold check_node1_nf in E1. unfold check_node1.
+    destruct (get_cpd b v) as [c|]; [|discriminate].
+    destruct (negb (seteqb (get_evidence c) (parents (bg b) v))); [discriminate|].
+    destruct (negb (forallb (sn_has (snames c)) (variables c))); [discriminate|].
+    destruct (is_valid_cpd c) eqn:Ev; cbn [andb negb] in E1; [|discriminate].
+    destruct (memv (child c) nf) eqn:Em; cbn [negb] in E1; [discriminate|].
+    split; [reflexivity|]. intros c' Hc'. inversion Hc'; subst c'. apply memv_false. exact Em. }
+  split.
+  - assert (E : first_fail (check_node1 b) (nodes (bg b)) = CM_ok).
+    { apply first_fail_ok. intros v Hv. apply (G v Hv). }
+    rewrite E. exact H.
+  - intros v c Hv Hc. apply (G v Hv). exact Hc.
+Qed.
